@@ -594,7 +594,8 @@ void convex_hull(const Array<Vec2> points, Array<Vec2>& result) {
             qh_facet = qh_nextfacet2d(qh_facet, &qh_vertex);
         }
     } else if (exitcode == qh_ERRsingular) {
-        // QHull errors for singular input (collinear points in 2D)
+        // QHull errors for singular input (collinear points in 2D): the hull is the segment
+        // between the 2 extreme input points along the longer side of the bounding box
         Vec2 min = {DBL_MAX, DBL_MAX};
         Vec2 max = {-DBL_MAX, -DBL_MAX};
         Vec2* p = points.items;
@@ -604,10 +605,16 @@ void convex_hull(const Array<Vec2> points, Array<Vec2>& result) {
             if (p->y < min.y) min.y = p->y;
             if (p->y > max.y) max.y = p->y;
         }
-        if (min.x < max.x) {
-            result.append(min);
-            result.append(max);
+        const bool along_x = max.x - min.x >= max.y - min.y;
+        Vec2 first = points[0];
+        Vec2 last = points[0];
+        p = points.items;
+        for (uint64_t num = points.count; num > 0; num--, p++) {
+            if (along_x ? p->x < first.x : p->y < first.y) first = *p;
+            if (along_x ? p->x > last.x : p->y > last.y) last = *p;
         }
+        result.append(first);
+        if (first.x != last.x || first.y != last.y) result.append(last);
     } else {
         // The least we can do
         result.extend(points);
